@@ -15,7 +15,7 @@ from mc.ref.calendar import RefCalendar
 
 TOGGLES = [
     "res15", "res10", "eff03", "eff15", "wkend", "leave", "vac", "limr", "limg", "limt", "gap", "prio", "alapE", "pin",
-    "sc3", "sub", "month", "tz", "hours", "long", "r5", "deep", "dst", "rev", "shutdown", "night",
+    "sc3", "sub", "month", "tz", "hours", "long", "r5", "deep", "dst", "rev", "shutdown", "night", "limmin", "many",
 ]
 FIRST = ("month", "dst")   # toggles that move the window: applied first, dated attributes follow the window
 
@@ -148,6 +148,14 @@ def apply(spec, tg, n):
     elif tg == "shutdown":
         # a five-week project vacation in the middle of the window (contains a whole calendar month at some starts)
         spec.setdefault("vacations", []).append((_day(spec, 14), _day(spec, 49)))
+    elif tg == "limmin":
+        # limits written in minutes whose hour form is not representable (130 min = 13 slots of 10 min, 26 of 5 min)
+        _res(spec, "r4")["limits"] = {"dailymax": "130min"}
+        _res(spec, "r3")["limits"] = {"weeklymax": "490min"}
+    elif tg == "many":
+        # eleven or more tasks at the top level (two-digit positions), equal priorities, competing pairwise for r1 / r2
+        for i in range(5):
+            spec["tasks"].append({"id": f"n{i}", "effort": 120 + 60 * i, "alloc": ["r1" if i % 2 else "r2"]})
     elif tg == "night":
         # a night shift that runs from Sunday evening: the after-midnight half of 'sun' belongs to Monday (weekday wrap)
         spec.setdefault("shifts", []).append({"id": "nt", "hours": [("sun - thu", ["22:00 - 6:00"])]})
@@ -186,7 +194,7 @@ def universe(tier):
 # ---- core-dialect variant for C07 (forward, whole-slot efforts, slot-aligned gaps, no alternatives) ---------------
 
 TOGGLES7 = ["res30", "res15", "res10", "effhalf", "wkend", "leave", "vac", "limr", "limg", "limt", "gap", "prio", "pin", "month", "tz",
-            "hours", "long", "r5", "deep", "dst", "rev", "shutdown", "night"]
+            "hours", "long", "r5", "deep", "dst", "rev", "shutdown", "night", "limmin", "many"]
 
 
 def to_spec7(item):
@@ -237,7 +245,7 @@ def universe9(tier):
         for ts in sets:
             for res in ("r1", "r2", "r3", "r4"):
                 for m in (30, 600):
-                    for pos in ("first", "last"):
+                    for pos in ("first", "mid", "last"):
                         yield {"kind": "wide9", "wb": {"b": b, "t": list(ts)}, "in": {"m": m, "res": res, "pos": pos}}
 
 
@@ -246,7 +254,7 @@ def specs9(item):
     w = copy.deepcopy(b)
     i = item["in"]
     t = {"id": "zz", "effort": i["m"], "alloc": [i["res"]], "prio": 1}
-    w["tasks"].insert(0 if i["pos"] == "first" else len(w["tasks"]), t)
+    w["tasks"].insert({"first": 0, "mid": len(w["tasks"]) // 2}.get(i["pos"], len(w["tasks"])), t)
     return b, w
 
 
@@ -387,6 +395,6 @@ def sweep(ctx, st, prop):
 
 
 NOTE = ("'wide' family (all members with the compiled extensions, the members with <= 1 toggle - thorough <= 2 - again on the pure-Python fallbacks): 2 ten-task base projects (3-level task and resource trees, team, alternative, milestone, container edges, "
-        "window across the year boundary) x every subset of <= 2 (thorough: <= 3) of 26 feature toggles (resolution 15/10 min, efficiency "
+        "window across the year boundary) x every subset of <= 2 (thorough: <= 3) of 28 feature toggles (resolution 15/10 min, efficiency "
         "0.3/1.5, weekend-only resource, leaves, vacation, resource/group/task limits, gaps, priorities, ALAP task, container pin, third "
-        "scenario, sub-slot efforts, month boundary, time zone, split hours, multi-week effort, fifth resource, 5-level nesting, a window across two daylight-saving switches with zoned seven-day resources, reversed declaration order, a five-week project vacation, a Sunday-to-Thursday night shift)")
+        "scenario, sub-slot efforts, month boundary, time zone, split hours, multi-week effort, fifth resource, 5-level nesting, a window across two daylight-saving switches with zoned seven-day resources, reversed declaration order, a five-week project vacation, a Sunday-to-Thursday night shift, limits in minutes that are no round number of hours, eleven or more top-level tasks)")
